@@ -112,9 +112,10 @@ impl<'a> Evaluator<'a> {
             }
             Desc(a) | Ref(a) => self.next(*a).eval(chunk),
             // for aggs, evaluate its children
-            RowCount => Ok(ArrayImpl::new_null(
+            RowCount | RowNumber => Ok(ArrayImpl::new_null(
                 (0..chunk.cardinality()).map(|_| ()).collect(),
             )),
+            Over([window, _, _]) => self.next(*window).eval(chunk),
             Count(a) | Sum(a) | Min(a) | Max(a) | First(a) | Last(a) | CountDistinct(a) => {
                 self.next(*a).eval(chunk)
             }
